@@ -57,7 +57,7 @@ func main() {
 	d.Numbers()
 	run.Assume = []string{
 		"field trees: every tree with <= the stated number of nodes over the reduced leaf set x object/inline/dict/array containers x every marshaler error position x every split into <=2 With segments and call-site fields; full leaf alphabet (boundary numerics, NaN/Inf, hostile strings, failing/panicking/nil values) in 10 context classes; every string of <= the stated number of units over a 16-unit alphabet as value and as key",
-		"configurations: full product of per-part key presence x built-in / nil / no-op sub-encoders (12320) x 32 entry variants x line endings; user-supplied sub-encoders other than nil/no-op/built-in are outside the alphabet",
+		"configurations: full product of per-part key presence x built-in / nil / no-op sub-encoders (13440) x 32 entry variants x line endings; user-supplied sub-encoders other than nil/no-op/built-in are outside the alphabet",
 		"oracle: own RFC 8259 recogniser + encoding/json.Valid as second opinion",
 	}
 	cov := d.Coverage("one evaluation = one EncodeEntry / Core.Write on the real JSON encoder; distinct = distinct output byte strings (FNV-64 of the line)")
